@@ -694,6 +694,13 @@ def build_cases(tier="quick"):
     from contracts import c02
 
     ref = [Case(f"{PROP}/sevm.SEVM.run#JUMP-symbolic", c.case, c.harness, replay=replay_jumpdest_cache, sources=c.sources) for c in c02.symbolic_jump_cases()]
+    # code slices read as zero past the end: the CODECOPY arm asks the code for the whole range (C01 contract)
+    from contracts import c01
+
+    from contracts import c09
+
+    ref += [Case(f"{PROP}/sevm.SEVM.create#init-code", c.case, c.harness, replay=c.replay, sources=c.sources) for c in c09.create_cases()]
+    ref += [Case(f"{PROP}/sevm.SEVM.run#CODECOPY", c.case, c.harness, replay=c.replay, sources=c.sources) for c in c01.memory_cases() if c.unit.endswith("#CODECOPY")]
     return insn_len_cases() + jumpdest_cases() + valid_jumpdests_cases() + decode_past_end_cases() + decode_cases() + init_cases() + jump_check_cases() + ref
 
 
